@@ -214,6 +214,14 @@ def stepLine (_ : Unit) (line : String) : Unit × String :=
     let ps := (progs.splitOn "/").map fun p => (p.splitOn ",").filterMap Igris.C20.Ev.Drv.parseOp
     let sc := if sched == "-" then [] else sched.toList.map fun c => c.toNat
     ((), Igris.C20.Ev.Drv.runCase ps sc)
+  | ["p", "premain"] =>
+    -- the library used before main() (harness object with init_priority(101)): what the
+    -- sequential specification says about that fixed program
+    ((), "premain lock=2,1,0,1,0 save=1 fut=77 wq=0 q=7,1 ev=1,1,1,0 sem=0,1")
+  | ["k", "consts"] =>
+    -- constants the model embeds: initial value of safe_queue's semaphore (`init.sem`),
+    -- the lock count / saved count are C `int` (4 bytes, signed), `future` is an intptr_t
+    ((), s!"consts sem0={(init (fun _ => []) []).sem} counter=4 savecount=4 future=8 signed=1")
   | _ => ((), "bad-op")
 
 end Igris.C20.Drv
